@@ -33,6 +33,12 @@ func Map(v reflect.Value, f jtypes.Callable) (interface{}, error) {
 		}
 	}
 
+	// No results: an array without members, not a nil slice
+	// (which json.Marshal and $string render as null).
+	if results == nil {
+		results = []interface{}{}
+	}
+
 	return results, nil
 }
 
@@ -57,6 +63,12 @@ func Filter(v reflect.Value, f jtypes.Callable) (interface{}, error) {
 		if Boolean(res) && item.IsValid() && item.CanInterface() {
 			results = append(results, item.Interface())
 		}
+	}
+
+	// No members kept: an array without members, not a nil
+	// slice (which json.Marshal and $string render as null).
+	if results == nil {
+		results = []interface{}{}
 	}
 
 	return results, nil
